@@ -1,18 +1,263 @@
-(* C08 - property theorems only (work in progress header; see the final list below). *)
+(* C08 - property theorems only.  Each is closed by [exact] of a lemma from the
+   libraries / Proofs*.v and followed by Print Assumptions.
+
+   Byte level (all N, all byte strings, by induction): uvarint, makeUnsigned,
+   protobuf framing of PublicKey and Envelope, multihash, base58/base32, peer-ID
+   text dispatch.  Symbolic level: envelope acceptance, peer records and
+   signatures under an IDEAL signature scheme (Section hypothesis
+   [verify_ideal], shown consistent by the free term algebra).  SHA-256 is an
+   arbitrary function with 32-byte output ([digest_ok]); the key-type specific
+   inner encodings are the parameter [key_dec]. *)
 From Coq Require Import List NArith ZArith Bool.
-From Verif Require Import lib.Wire c08.Varint c08.Protobuf c08.Digits c08.Base58 c08.Model c08.Spec c08.Proofs gen.Consts_c08.
+From Verif Require Import lib.Wire c08.Varint c08.Protobuf c08.Digits c08.Base58 c08.SymCrypto
+  c08.Model c08.Spec c08.Proofs c08.Proofs_Env gen.Consts_c08.
 Import ListNotations.
 Local Open Scope N_scope.
 
+(* ---- unsigned varints ------------------------------------------------------------ *)
 Theorem c08_uvarint_roundtrip : forall n r, decode (encode n ++ r) = Some (n, r).
 Proof. exact decode_encode. Qed.
 Print Assumptions c08_uvarint_roundtrip.
 
+(* no encoding is a prefix of another: a string starting with one splits uniquely *)
 Theorem c08_uvarint_prefix_free : forall a b x y, encode a ++ x = encode b ++ y -> a = b /\ x = y.
 Proof. exact encode_prefix_free. Qed.
 Print Assumptions c08_uvarint_prefix_free.
 
+(* nothing that decodes to n is shorter than [encode n] *)
+Theorem c08_uvarint_minimal : forall l n r, decode l = Some (n, r) ->
+  exists p, l = p ++ r /\ (length (encode n) <= length p)%nat.
+Proof. exact decode_min_length. Qed.
+Print Assumptions c08_uvarint_minimal.
+
+(* the minimal-only decoder (go-varint, used by multihash and CID) accepts exactly the encoder's output *)
+Theorem c08_uvarint_canonical : forall l n r, bytes_ok l ->
+  (decode_min l = Some (n, r) <-> l = encode n ++ r).
+Proof. exact decode_min_iff. Qed.
+Print Assumptions c08_uvarint_canonical.
+
+(* ---- the signed pre-image --------------------------------------------------------- *)
+(* makeUnsigned is injective, including triples whose plain concatenations coincide *)
 Theorem c08_make_unsigned_injective : forall d t p d' t' p',
   make_unsigned d t p = make_unsigned d' t' p' -> d = d' /\ t = t' /\ p = p'.
 Proof. exact make_unsigned_injective_l. Qed.
 Print Assumptions c08_make_unsigned_injective.
+
+(* the reader used by the run-time monitor is a left inverse of makeUnsigned *)
+Theorem c08_make_unsigned_readback : forall d t p, parse_unsigned (make_unsigned d t p) = Some (d, t, p).
+Proof. exact parse_make_unsigned. Qed.
+Print Assumptions c08_make_unsigned_readback.
+
+(* ---- marshalled public keys ---------------------------------------------------------- *)
+Theorem c08_pubkey_proto_roundtrip : forall kt d, kt < 2 ^ 32 -> nlen d < 2 ^ 64 ->
+  parse_pubkey (marshal_pubkey kt d) = Some (kt, d).
+Proof. exact pubkey_proto_roundtrip_l. Qed.
+Print Assumptions c08_pubkey_proto_roundtrip.
+
+Theorem c08_pubkey_marshal_injective : forall kt d kt' d',
+  kt < 2 ^ 32 -> kt' < 2 ^ 32 -> nlen d < 2 ^ 64 -> nlen d' < 2 ^ 64 ->
+  marshal_pubkey kt d = marshal_pubkey kt' d' -> kt = kt' /\ d = d'.
+Proof. exact marshal_pubkey_injective_l. Qed.
+Print Assumptions c08_pubkey_marshal_injective.
+
+(* ---- multihash, peer IDs ---------------------------------------------------------------- *)
+Theorem c08_mh_roundtrip : forall code dg, code < 2 ^ 63 -> nlen dg <= 2 ^ 31 - 1 ->
+  mh_decode (mh_wrap code dg) = Some (code, dg).
+Proof. exact mh_roundtrip_l. Qed.
+Print Assumptions c08_mh_roundtrip.
+
+(* ExtractPublicKey recovers the marshalled key iff the identity form was used
+   (marshalled length <= maxInlineKeyLength) *)
+Theorem c08_id_embeds_key : forall mx m dg, nlen m <= 2 ^ 31 - 1 -> length dg = 32%nat ->
+  extract_key (id_of_key mx m dg) = if nlen m <=? mx then ExKey m else ExNoKey.
+Proof. exact id_embeds_key_l. Qed.
+Print Assumptions c08_id_embeds_key.
+
+(* every ID derived from a key is a valid multihash (IDFromBytes round trip) *)
+Theorem c08_id_binary_roundtrip : forall mx m dg, nlen m <= 2 ^ 31 - 1 -> length dg = 32%nat ->
+  exists c d, mh_decode (id_of_key mx m dg) = Some (c, d).
+Proof. exact id_of_key_valid. Qed.
+Print Assumptions c08_id_binary_roundtrip.
+
+(* ---- text forms --------------------------------------------------------------------------- *)
+Theorem c08_base58_roundtrip : forall bs, bytes_ok bs -> bs <> [] -> b58_decode (b58_encode bs) = Some bs.
+Proof. exact b58_roundtrip. Qed.
+Print Assumptions c08_base58_roundtrip.
+
+Theorem c08_base32_roundtrip : forall bs, bytes_ok bs -> b32_decode (b32_encode bs) = Some bs.
+Proof. exact b32_roundtrip. Qed.
+Print Assumptions c08_base32_roundtrip.
+
+(* what peer.Decode dispatches on: sha2-256 IDs print as 46 characters "Qm...",
+   identity IDs as "1..." *)
+Theorem c08_b58_sha256_is_Qm : forall digest, bytes_ok digest -> length digest = 32%nat ->
+  exists t, b58_encode (18 :: 32 :: digest) = 81 :: 109 :: t /\ length t = 44%nat.
+Proof. exact b58_sha256_Qm. Qed.
+Print Assumptions c08_b58_sha256_is_Qm.
+
+Theorem c08_b58_identity_is_1 : forall r, exists t, b58_encode (0 :: r) = 49 :: t.
+Proof. exact b58_leading_zero. Qed.
+Print Assumptions c08_b58_identity_is_1.
+
+(* Decode (String id) = id and Decode (ToCid id).String() = id for every ID derived from a key *)
+Theorem c08_peerid_text_dispatch : forall mx m dg,
+  bytes_ok m -> digest_ok dg -> nlen m <= 2 ^ 31 - 1 ->
+  peer_decode (id_b58 (id_of_key mx m dg)) = DecId (id_of_key mx m dg) /\
+  peer_decode (id_cid_text (id_of_key mx m dg)) = DecId (id_of_key mx m dg).
+Proof.
+  intros mx m dg H1 H2 H3. split; [apply peer_decode_b58_l|apply peer_decode_cid_l]; assumption.
+Qed.
+Print Assumptions c08_peerid_text_dispatch.
+
+(* ---- envelopes ------------------------------------------------------------------------------ *)
+Theorem c08_envelope_wire_roundtrip : forall e, env_wf e -> parse_envelope (marshal_envelope e) = Some e.
+Proof. exact parse_marshal_envelope. Qed.
+Print Assumptions c08_envelope_wire_roundtrip.
+
+(* for every key decoder and every ideal signature scheme: consume accepts iff
+   the bytes decode to (key, type, payload, sig) and sig was issued for exactly
+   (key, makeUnsigned domain type payload) *)
+Theorem c08_consume_accept_iff :
+  forall (K : Type) (key_dec : N -> bytes -> option K) (verify : K -> bytes -> bytes -> bool)
+         (origin : bytes -> option (K * bytes)),
+  (forall k m s, verify k m s = true <-> origin s = Some (k, m)) ->
+  forall b dom k t p,
+    consume K key_dec verify b dom = CAccept k t p <->
+    exists e, unmarshal_envelope K key_dec b = Some (k, e) /\ t = e_pt e /\ p = e_pl e /\
+              origin (e_sg e) = Some (k, make_unsigned dom t p).
+Proof. exact consume_accept_iff. Qed.
+Print Assumptions c08_consume_accept_iff.
+
+(* an envelope whose signature was issued by sealing (d0, t0, p0) with k0 is
+   accepted iff the domain asked, the payload type, the payload and the key are
+   exactly those; and whatever is accepted is exactly the sealed content *)
+Theorem c08_envelope_accept_iff_sealed :
+  forall (K : Type) (key_dec : N -> bytes -> option K) (verify : K -> bytes -> bytes -> bool)
+         (origin : bytes -> option (K * bytes)),
+  (forall k m s, verify k m s = true <-> origin s = Some (k, m)) ->
+  forall b dom k e k0 d0 t0 p0,
+    unmarshal_envelope K key_dec b = Some (k, e) -> sealed_with K origin (e_sg e) k0 d0 t0 p0 ->
+    ((exists k' t' p', consume K key_dec verify b dom = CAccept k' t' p') <->
+     (k = k0 /\ dom = d0 /\ e_pt e = t0 /\ e_pl e = p0)) /\
+    (forall k' t' p', consume K key_dec verify b dom = CAccept k' t' p' ->
+       k' = k0 /\ dom = d0 /\ t' = t0 /\ p' = p0).
+Proof. exact envelope_accept_iff_sealed_l. Qed.
+Print Assumptions c08_envelope_accept_iff_sealed.
+
+Theorem c08_seal_then_consume :
+  forall (K : Type) (key_dec : N -> bytes -> option K) (verify : K -> bytes -> bytes -> bool)
+         (origin : bytes -> option (K * bytes)),
+  (forall k m s, verify k m s = true <-> origin s = Some (k, m)) ->
+  forall kt kd k d t p s,
+    env_wf (mkEnv kt kd t p s) -> key_type_ok kt = true -> key_dec kt kd = Some k ->
+    sealed_with K origin s k d t p ->
+    consume K key_dec verify (marshal_envelope (mkEnv kt kd t p s)) d = CAccept k t p.
+Proof. exact seal_then_consume_l. Qed.
+Print Assumptions c08_seal_then_consume.
+
+(* peerstore consumption requires record.PeerID = ID of the signing key; with a
+   sealed signature that key, the domain and the record are the sealed ones *)
+Theorem c08_peer_record_bound_to_signer :
+  forall (K : Type) (key_dec : N -> bytes -> option K) (verify : K -> bytes -> bytes -> bool)
+         (origin : bytes -> option (K * bytes)),
+  (forall k m s, verify k m s = true <-> origin s = Some (k, m)) ->
+  forall (id_of : K -> bytes) b dom k e k0 d0 t0 p0 k' rid pl,
+    unmarshal_envelope K key_dec b = Some (k, e) -> sealed_with K origin (e_sg e) k0 d0 t0 p0 ->
+    consume_peer_record K key_dec verify id_of b dom = Some (k', rid, pl) ->
+    k' = k0 /\ dom = d0 /\ pl = p0 /\ record_peer_id p0 = Some (id_of k0).
+Proof. exact peer_record_sealed_l. Qed.
+Print Assumptions c08_peer_record_bound_to_signer.
+
+Theorem c08_peer_record_id_is_signers :
+  forall (K : Type) (key_dec : N -> bytes -> option K) (verify : K -> bytes -> bytes -> bool)
+         (id_of : K -> bytes) b dom k rid pl,
+    consume_peer_record K key_dec verify id_of b dom = Some (k, rid, pl) ->
+    rid = id_of k /\ record_peer_id pl = Some rid /\
+    exists t, consume K key_dec verify b dom = CAccept k t pl.
+Proof. exact peer_record_bound_to_signer_l. Qed.
+Print Assumptions c08_peer_record_id_is_signers.
+
+(* ---- signatures -------------------------------------------------------------------------------- *)
+(* a signature value verifies for exactly one (key, message) *)
+Theorem c08_sig_exact :
+  forall (K M S : Type) (verify : K -> M -> S -> bool) (origin : S -> option (K * M)),
+  (forall k m s, verify k m s = true <-> origin s = Some (k, m)) ->
+  forall k m k' m' s, verify k m s = true -> verify k' m' s = true -> k = k' /\ m = m'.
+Proof. exact sig_exact. Qed.
+Print Assumptions c08_sig_exact.
+
+(* the hypothesis is satisfiable: the free term algebra is an ideal scheme *)
+Theorem c08_symbolic_scheme_is_ideal : forall p m s,
+  sym_verify p m s = true <-> sym_origin s = Some (p, m).
+Proof. exact sym_ideal. Qed.
+Print Assumptions c08_symbolic_scheme_is_ideal.
+
+(* a signature under a key the adversary cannot derive is derivable only if it was sent *)
+Theorem c08_sig_unforgeable : forall kn k m r,
+  mem_term (TKey k) kn = false -> knows kn (TSig k m r) = true -> mem_term (TSig k m r) kn = true.
+Proof. exact sig_unforgeable. Qed.
+Print Assumptions c08_sig_unforgeable.
+
+(* ---- THE monitor accepts every case the model produces --------------------------------------- *)
+(* for every key table, every set of seal events, every byte string offered as
+   an envelope, every domain asked and every answer of the key decoder: the
+   observations of the model (ideal signatures given by the seal table) satisfy
+   the very monitor that is run on the implementation's observations *)
+Theorem c08_monitor_accepts_model : forall mode keys seals env dom kdec,
+  seals_wf keys seals ->
+  monitor6 (model_case6 mode keys seals env dom kdec) = [].
+Proof. exact monitor_accepts_model_l. Qed.
+Print Assumptions c08_monitor_accepts_model.
+
+(* ---- regenerated constants ----------------------------------------------------------------------- *)
+(* specification: keys of at most 42 marshalled bytes are inlined, and inlining
+   is on.  Ed25519 (36 bytes) and secp256k1 (37) are inlined; ECDSA P-256 (95)
+   and RSA are hashed. *)
+Theorem c08_inline_threshold :
+  (maxInlineKeyLength = 42 /\ advancedEnableInlining = 1 /\
+   36 <= maxInlineKeyLength /\ 37 <= maxInlineKeyLength /\ maxInlineKeyLength < 95)%Z.
+Proof. vm_compute. repeat split; discriminate. Qed.
+Print Assumptions c08_inline_threshold.
+
+(* ---- non-vacuity ------------------------------------------------------------------------------------ *)
+(* a toy ideal scheme: signature value [7] was issued by key 1 on
+   makeUnsigned "d" [3;1] [5]; the envelope carrying it is accepted for domain
+   "d" = [100] and rejected for [101] *)
+Definition toy_origin (s : bytes) : option (N * bytes) :=
+  if bytes_eqb s [7] then Some (1, make_unsigned [100] [3; 1] [5]) else None.
+Definition toy_verify (k : N) (m s : bytes) : bool :=
+  match toy_origin s with Some (k', m') => (k =? k') && bytes_eqb m m' | None => false end.
+Definition toy_key_dec (kt : N) (kd : bytes) : option N :=
+  if bytes_eqb kd [9] then Some 1 else if bytes_eqb kd [8] then Some 2 else None.
+Definition toy_env (kd : bytes) := marshal_envelope (mkEnv 1 kd [3; 1] [5] [7]).
+
+Example toy_accepts : consume N toy_key_dec toy_verify (toy_env [9]) [100] = CAccept 1 [3; 1] [5].
+Proof. vm_compute. reflexivity. Qed.
+Example toy_rejects_domain : consume N toy_key_dec toy_verify (toy_env [9]) [101] = CBadSignature.
+Proof. vm_compute. reflexivity. Qed.
+Example toy_rejects_foreign_key : consume N toy_key_dec toy_verify (toy_env [8]) [100] = CBadSignature.
+Proof. vm_compute. reflexivity. Qed.
+(* a colliding concatenation: domain "d"++[3], type [1] has the same plain concatenation *)
+Example toy_rejects_shifted : consume N toy_key_dec toy_verify
+  (marshal_envelope (mkEnv 1 [9] [1] [5] [7])) [100; 3] = CBadSignature.
+Proof. vm_compute. reflexivity. Qed.
+
+(* the monitor rejects an acceptance under a domain other than the sealed one ... *)
+Example monitor_rejects_wrong_domain :
+  monitor_case [6; 1; 1;  1; 1;9; 1;8; 0; 0;  1;  0; 1;100; 1;3; 1;5; 1;7;  0;  1;101;
+                0; 0; 0; -3;  0; 0; 0;  1; 1;8; 1;3; 1;5;  0; 0]%Z = [ERR_PROPERTY; 1]%Z.
+Proof. vm_compute. reflexivity. Qed.
+(* ... accepts it under the sealed one ... *)
+Example monitor_accepts_right_domain :
+  monitor_case [6; 1; 1;  1; 1;9; 1;8; 0; 0;  1;  0; 1;100; 1;3; 1;5; 1;7;  0;  1;100;
+                0; 0; 0; -3;  0; 0; 0;  1; 1;8; 1;3; 1;5;  0; 0]%Z = [].
+Proof. vm_compute. reflexivity. Qed.
+(* ... rejects a peerstore acceptance when the record's ID is not the signer's ... *)
+Example monitor_rejects_foreign_record_id :
+  monitor_case [6; 2; 1;  1; 1;9; 1;8; 0; 1;77;  1;  0; 1;100; 1;3; 1;5; 1;7;  0;  1;100;
+                0; 0; 0; -3;  0; 0; 0;  1; 1;8; 1;3; 1;5;  1; 1;78]%Z = [ERR_PROPERTY; 2]%Z.
+Proof. vm_compute. reflexivity. Qed.
+(* ... and a signature that verifies for another message *)
+Example monitor_rejects_other_message :
+  monitor_case [7; 1; 1;5; 1;7; 1;6; 1;7; 1]%Z = [ERR_PROPERTY; 71]%Z.
+Proof. vm_compute. reflexivity. Qed.
